@@ -151,7 +151,7 @@ func (env *c14Env) demand(sp *c14Spec, ref []byte, bufSize int, exact bool) {
 		mode = "inside"
 	}
 	c.Case("demand/"+mode, fmt.Sprintf("%s|%d", sp.Name, bufSize), true)
-	if len(c.Res.Samples) < 6 && sp.Name == "tiny" && exact {
+	if sp.Name == "tiny" && exact && bufSize == 64 {
 		c.Sample(map[string]any{"file": sp.Name, "read_buffer": bufSize, "readat_of_openfile": c14Ranges(openReads), "readat_of_full_read": c14Ranges(pageReads)})
 	}
 
